@@ -1,1 +1,566 @@
 //! Kani harnesses compiled as a child module of aym/src/backends/precise.rs (cfg(kani) only).
+//! Property C18, integer generator part: register decode, tone/noise/envelope counters, mixer gate,
+//! stereo panning arguments, and the chip-clock/8 tick rate of the resampler.  The float DSP
+//! (interpolator, FIR decimator, DC filter) is outside the claim.
+#![allow(dead_code)]
+use super::*;
+
+fn mk(rate: usize) -> AymPrecise {
+    AymPrecise::new(false, 1_773_400.0, rate)
+}
+
+// ---- specification: register file -> generator parameters (AY-3-8910 data sheet) --------------
+
+fn spec_tone_period(r: &[u8; 14], ch: usize) -> u16 {
+    let p = (r[2 * ch] as u16) | (((r[2 * ch + 1] & 0x0F) as u16) << 8);
+    if p == 0 {
+        1
+    } else {
+        p
+    }
+}
+fn spec_noise_period(r: &[u8; 14]) -> u16 {
+    let p = (r[6] & 0x1F) as u16;
+    if p == 0 {
+        1
+    } else {
+        p
+    }
+}
+fn spec_env_period(r: &[u8; 14]) -> u16 {
+    let p = (r[11] as u16) | ((r[12] as u16) << 8);
+    if p == 0 {
+        1
+    } else {
+        p
+    }
+}
+
+/// representation invariant: the decoded fields agree with the register file
+fn decoded_ok(ay: &AymPrecise, fresh: bool) -> bool {
+    let r = &ay.registers;
+    let mut ok = (ay.noise_period == spec_noise_period(r) || (ay.noise_period == 0 && fresh)) && ay.envelope_period == spec_env_period(r) && ay.envelope_shape == (r[13] & 0x0F) as usize;
+    let mut ch = 0;
+    while ch < 3 {
+        let c = &ay.channels[ch];
+        ok &= c.tone_period == spec_tone_period(r, ch);
+        ok &= c.tone_off_bit == ((r[7] >> ch) & 1) as usize;
+        ok &= c.noise_off_bit == ((r[7] >> (3 + ch)) & 1) as usize;
+        ok &= c.envelope_enabled == (r[8 + ch] & 0x10 != 0);
+        ok &= c.volume == (r[8 + ch] & 0x0F) as usize;
+        ch += 1;
+    }
+    ok
+}
+
+/// force the decoded fields to agree with an arbitrary register file
+fn any_decoded_state(ay: &mut AymPrecise) {
+    let r: [u8; 14] = kani::any();
+    ay.registers = r;
+    ay.noise_period = spec_noise_period(&r);
+    ay.envelope_period = spec_env_period(&r);
+    ay.envelope_shape = (r[13] & 0x0F) as usize;
+    let mut ch = 0;
+    while ch < 3 {
+        ay.channels[ch].tone_period = spec_tone_period(&r, ch);
+        ay.channels[ch].tone_off_bit = ((r[7] >> ch) & 1) as usize;
+        ay.channels[ch].noise_off_bit = ((r[7] >> (3 + ch)) & 1) as usize;
+        ay.channels[ch].envelope_enabled = r[8 + ch] & 0x10 != 0;
+        ay.channels[ch].volume = (r[8 + ch] & 0x0F) as usize;
+        ch += 1;
+    }
+}
+
+fn shape_starts_high(shape: usize) -> bool {
+    // 00xx and 10xx start with a decay from the top; 01xx and 11xx with an attack from zero
+    shape & 0x04 == 0
+}
+
+// @harness
+// @prop C18
+// @tier quick
+// @timeout 600
+// @fn AymPrecise::write_register; set_tone; set_noise; set_mixer; set_volume; set_envelope; set_envelope_shape; reset_segment; AymPrecise::new
+// @sym complete register file R0-R13 (with consistent decoded state), one register write (any address 0..255, any value)
+// @assert after any write the generator parameters are the data-sheet decode of the register file: 12-bit tone periods (0 acting as 1), 5-bit noise period (0 as 1), 16-bit envelope period (0 as 1), mixer bits gate tone (bits 0-2) and noise (bits 3-5) per channel, 4-bit volume, bit 4 of R8-R10 selects the envelope; writing R13 restarts the envelope at the top (decay shapes) or at zero (attack shapes); writes to addresses >= 14 (I/O ports R14/R15 and beyond) change nothing in the generator; fresh chip = all registers zero decoded
+// @bound one write from an arbitrary consistent state (inductive over register histories)
+#[kani::proof]
+#[kani::unwind(16)]
+fn c18_register_decode() {
+    let mut ay = mk(44100);
+    // before R6 is first written the noise period of a fresh chip is left unconstrained (the statement
+    // defines noise periods 1..31 only)
+    kani::assert(decoded_ok(&ay, true), "c18.decode.reset_state_consistent");
+    any_decoded_state(&mut ay);
+    let env0 = (ay.envelope, ay.envelope_counter, ay.envelope_segment);
+    let tone0 = (ay.channels[0].tone, ay.channels[0].tone_counter, ay.noise, ay.noise_counter);
+    let before = ay.registers;
+    let addr: u8 = kani::any();
+    let value: u8 = kani::any();
+    ay.write_register(addr, value);
+    if addr < 14 {
+        kani::assert(ay.registers[addr as usize] == value, "c18.decode.register_stored");
+    } else {
+        let mut same = true;
+        let mut i = 0;
+        while i < 14 {
+            same &= ay.registers[i] == before[i];
+            i += 1;
+        }
+        kani::assert(same, "c18.decode.io_registers_do_not_reach_generator");
+    }
+    kani::assert(decoded_ok(&ay, false), "c18.decode.fields_follow_registers");
+    if addr == 13 {
+        kani::assert(ay.envelope_counter == 0 && ay.envelope_segment == 0, "c18.decode.r13_restarts_envelope");
+        kani::assert(ay.envelope == if shape_starts_high((value & 0x0F) as usize) { 31 } else { 0 }, "c18.decode.r13_start_level");
+    } else {
+        kani::assert((ay.envelope, ay.envelope_counter, ay.envelope_segment) == env0, "c18.decode.envelope_phase_kept");
+    }
+    kani::assert((ay.channels[0].tone, ay.channels[0].tone_counter, ay.noise, ay.noise_counter) == tone0, "c18.decode.counters_kept");
+    kani::cover!(addr == 1 && value == 0xFF && ay.channels[0].tone_period == 0x0FFF, "12-bit tone period");
+    kani::cover!(addr == 0 && ay.channels[0].tone_period == 1 && value == 0, "tone period 0 acts as 1");
+    kani::cover!(addr == 13 && value == 0x0E, "envelope shape write");
+    kani::cover!(addr == 15, "I/O register");
+}
+
+// @harness
+// @prop C18
+// @tier quick
+// @timeout 600
+// @fn AymPrecise::update_tone; AymPrecise::update_noise
+// @sym channel, tone period 1..4095, tone counter < period, tone level; noise period 1..31, noise counter < 2*period, 17-bit shift register
+// @assert per generator tick (chip clock / 8): the tone output toggles exactly when the counter completes `period` ticks (square wave of f_clk/(16*TP)), otherwise only the counter advances; the noise register shifts once every 2*NP ticks (clock f_clk/(16*NP)) as a 17-bit LFSR with taps 0 and 3, output = bit 0, never becomes zero; counters stay below their period (invariant)
+// @bound one tick from an arbitrary in-range state (k-induction over ticks)
+#[kani::proof]
+fn c18_tone_and_noise_tick() {
+    let mut ay = mk(44100);
+    let ch: usize = kani::any();
+    kani::assume(ch < 3);
+    let period: u16 = kani::any();
+    kani::assume(period >= 1 && period <= 0x0FFF);
+    let counter: u16 = kani::any();
+    kani::assume(counter < period);
+    let level: usize = kani::any();
+    kani::assume(level <= 1);
+    ay.channels[ch].tone_period = period;
+    ay.channels[ch].tone_counter = counter;
+    ay.channels[ch].tone = level;
+    let out = ay.update_tone(ch);
+    if counter + 1 == period {
+        kani::assert(ay.channels[ch].tone == level ^ 1 && ay.channels[ch].tone_counter == 0, "c18.tone.toggles_every_period_ticks");
+    } else {
+        kani::assert(ay.channels[ch].tone == level && ay.channels[ch].tone_counter == counter + 1, "c18.tone.holds_between_toggles");
+    }
+    kani::assert(out == ay.channels[ch].tone && out <= 1, "c18.tone.output_is_level");
+    kani::assert(ay.channels[ch].tone_counter < period, "c18.tone.counter_invariant");
+    // noise
+    let np: u16 = kani::any();
+    kani::assume(np >= 1 && np <= 31);
+    let nc: u16 = kani::any();
+    kani::assume(nc < 2 * np);
+    let lfsr: usize = kani::any();
+    kani::assume(lfsr >= 1 && lfsr < (1 << 17));
+    ay.noise_period = np;
+    ay.noise_counter = nc;
+    ay.noise = lfsr;
+    let nout = ay.update_noise();
+    if nc + 1 == 2 * np {
+        let fb = (lfsr ^ (lfsr >> 3)) & 1;
+        kani::assert(ay.noise == (lfsr >> 1) | (fb << 16) && ay.noise_counter == 0, "c18.noise.lfsr_17bit_taps_0_3_every_2np_ticks");
+    } else {
+        kani::assert(ay.noise == lfsr && ay.noise_counter == nc + 1, "c18.noise.holds_between_shifts");
+    }
+    kani::assert(nout == ay.noise & 1, "c18.noise.output_bit0");
+    kani::assert(ay.noise >= 1 && ay.noise < (1 << 17) && ay.noise_counter < 2 * np, "c18.noise.invariant");
+    kani::cover!(counter + 1 == period && period == 0x0FFF, "longest tone period completes");
+    kani::cover!(nc + 1 == 2 * np && np == 31, "longest noise period completes");
+}
+
+/// documented envelope level (32-step resolution) k steps after the shape was written
+fn spec_envelope_level(shape: usize, k: usize) -> usize {
+    let phase = k / 32;
+    let pos = k % 32;
+    let down = 31 - pos;
+    let first_down = shape_starts_high(shape);
+    if phase == 0 {
+        return if first_down { down } else { pos };
+    }
+    match shape {
+        0..=3 | 9 => 0,       // \___
+        4..=7 | 15 => 0,      // /___
+        8 => down,            // \\\\
+        10 => if phase % 2 == 1 { pos } else { down },   // \/\/
+        11 => 31,             // \~~~
+        12 => pos,            // ////
+        13 => 31,             // /~~~
+        _ => if phase % 2 == 1 { down } else { pos },    // 14: /\/\
+    }
+}
+
+// @harness
+// @prop C18
+// @tier quick
+// @timeout 900
+// @fn AymPrecise::update_envelope; slide_up; slide_down; hold_top; hold_bottom; reset_segment; set_envelope_shape; ENVELOPES; ENVELOPE_RESET_TO_MAX
+// @sym envelope shape 0..15, envelope period 1..65535 with arbitrary counter below it, number of period expiries k <= 66
+// @assert after R13 is written the level follows the documented pattern of each of the 16 shape codes (decay / attack first, then hold low, hold high, repeat or alternate), one 1/32 step per envelope-period expiry, for 66 consecutive expiries (two full ramps and the turn-arounds); between expiries nothing moves
+// @bound 66 expiries (unwind 68) - the patterns are periodic with period <= 64 after the first ramp
+#[kani::proof]
+#[kani::unwind(68)]
+fn c18_envelope_shapes() {
+    let mut ay = mk(44100);
+    let shape: usize = kani::any();
+    kani::assume(shape < 16);
+    ay.write_register(13, shape as u8);
+    kani::assert(ay.envelope == spec_envelope_level(shape, 0), "c18.env.start_level");
+    // a tick that does not complete the period moves nothing
+    let ep: u16 = kani::any();
+    kani::assume(ep >= 2);
+    let cnt: u16 = kani::any();
+    kani::assume(cnt < ep - 1);
+    ay.envelope_period = ep;
+    ay.envelope_counter = cnt;
+    let lvl = ay.update_envelope();
+    kani::assert(lvl == spec_envelope_level(shape, 0) && ay.envelope_counter == cnt + 1, "c18.env.holds_between_expiries");
+    // now every tick is an expiry
+    ay.envelope_period = 1;
+    ay.envelope_counter = 0;
+    let k: usize = kani::any();
+    kani::assume(k >= 1 && k <= 66);
+    let mut i = 0;
+    let mut ok = true;
+    while i < 66 {
+        if i < k {
+            let l = ay.update_envelope();
+            ok &= l == spec_envelope_level(shape, i + 1);
+        }
+        i += 1;
+    }
+    kani::assert(ok, "c18.env.documented_pattern");
+    kani::assert(ay.envelope < 32, "c18.env.level_is_5_bits");
+    kani::cover!(shape == 10 && k == 66, "triangle shape through two turn-arounds");
+    kani::cover!(shape == 13 && k == 40 && ay.envelope == 31, "attack then hold high");
+    kani::cover!(shape == 15 && k == 33 && ay.envelope == 0, "attack then drop");
+}
+
+// @harness
+// @prop C18
+// @tier quick
+// @timeout 900
+// @fn AymPrecise::update_mixer; update_tone; update_noise; update_envelope; AY_DAC_TABLE; YM_DAC_TABLE
+// @sym chip type, per-channel tone level/gates/volume/envelope flag, noise register, envelope level, tone counters far from toggling
+// @assert the DAC index of every channel is ((tone | tone_off) & (noise | noise_off)) * (envelope level if bit 4 else 2*volume+1), always < 32 (no panic); with all gates open and pans (1,0) the left sum is the sum of the three DAC values; both DAC tables grow strictly with the 4-bit volume and weakly with the 5-bit envelope level, from 0 to 1
+// @bound one mixer tick from an arbitrary state; float sums only over the three table entries
+#[kani::proof]
+#[kani::unwind(5)]
+fn c18_mixer_gate_and_dac() {
+    let mut ay = mk(44100);
+    if kani::any() {
+        ay.dac_table = &YM_DAC_TABLE;
+    }
+    let mut idx = [0usize; 3];
+    let env: usize = kani::any();
+    kani::assume(env < 32);
+    ay.envelope = env;
+    ay.envelope_period = 0xFFFF;
+    ay.envelope_counter = 0;
+    ay.noise_period = 31;
+    ay.noise_counter = 0;
+    let lfsr: usize = kani::any();
+    kani::assume(lfsr >= 1 && lfsr < (1 << 17));
+    ay.noise = lfsr;
+    let mut ch = 0;
+    while ch < 3 {
+        let c = &mut ay.channels[ch];
+        c.tone_period = 0x0FFF;
+        c.tone_counter = 0;
+        c.tone = kani::any::<bool>() as usize;
+        c.tone_off_bit = kani::any::<bool>() as usize;
+        c.noise_off_bit = kani::any::<bool>() as usize;
+        c.envelope_enabled = kani::any();
+        let v: usize = kani::any();
+        kani::assume(v < 16);
+        c.volume = v;
+        c.pan_left = 1.0;
+        c.pan_right = 0.0;
+        let gate = (c.tone | c.tone_off_bit) & ((lfsr & 1) | c.noise_off_bit);
+        idx[ch] = gate * if c.envelope_enabled { env } else { 2 * v + 1 };
+        ch += 1;
+    }
+    ay.update_mixer();
+    let t = ay.dac_table;
+    kani::assert(idx[0] < 32 && idx[1] < 32 && idx[2] < 32, "c18.mixer.index_in_table");
+    kani::assert(ay.left == ((0.0 + t[idx[0]] * 1.0) + t[idx[1]] * 1.0) + t[idx[2]] * 1.0, "c18.mixer.sum_of_gated_dac_levels");
+    kani::assert(ay.right == 0.0, "c18.mixer.pan");
+    // amplitude grows strictly with the 4-bit volume, weakly with the envelope level
+    let v: usize = kani::any();
+    kani::assume(v < 15);
+    kani::assert(t[2 * v + 1] < t[2 * (v + 1) + 1], "c18.dac.strictly_increasing_in_volume");
+    let e: usize = kani::any();
+    kani::assume(e < 31);
+    kani::assert(t[e] <= t[e + 1] && t[0] == 0.0 && t[31] == 1.0, "c18.dac.monotone_in_envelope_level");
+    kani::cover!(idx[0] == 31 && idx[1] == 0 && idx[2] == 15, "max, gated-off and mid channel");
+    kani::cover!(ay.channels[1].envelope_enabled && idx[1] == env && env == 7, "envelope drives amplitude");
+}
+
+fn sqrt_identity(x: f64) -> f64 {
+    x
+}
+
+// @harness
+// @prop C18
+// @tier quick
+// @timeout 600
+// @fn <AymPrecise as AymBackend>::new; AymPrecise::set_pan
+// @sym stereo mode (all 7)
+// @assert channels are panned per the stereo table of the library documentation: Mono = all centre; ABC = A left, B centre, C right; ACB, BAC, BCA, CAB, CBA accordingly; equal-power law arguments: left gain = sqrt(1-p), right gain = sqrt(p) with p = 0 (left), 0.5 (both), 1 (right)
+// @bound all 7 modes x 3 channels
+// @stub libm::sqrt -> identity (the real one lowers to an SIMD intrinsic Kani does not support); the harness therefore compares the ARGUMENTS of the square roots
+// @replay solver-only
+#[kani::proof]
+#[kani::unwind(5)]
+#[kani::stub(libm::sqrt, sqrt_identity)]
+fn c18_stereo_panning() {
+    let sel: u8 = kani::any();
+    kani::assume(sel < 7);
+    // position per channel: 0 = left, 1 = both, 2 = right (documentation table in aym/src/lib.rs)
+    let (mode, want) = match sel {
+        0 => (AyMode::Mono, [1u8, 1, 1]),
+        1 => (AyMode::ABC, [0, 1, 2]),
+        2 => (AyMode::ACB, [0, 2, 1]),
+        3 => (AyMode::BAC, [1, 0, 2]),
+        4 => (AyMode::BCA, [2, 0, 1]),
+        5 => (AyMode::CAB, [1, 2, 0]),
+        _ => (AyMode::CBA, [2, 1, 0]),
+    };
+    let ay = <AymPrecise as AymBackend>::new(SoundChip::AY, mode, 1_773_400, 44100);
+    let mut ch = 0;
+    while ch < 3 {
+        let p = match want[ch] {
+            0 => 0.0,
+            1 => 0.5,
+            _ => 1.0,
+        };
+        kani::assert(ay.channels[ch].pan_right == p && ay.channels[ch].pan_left == 1.0 - p, "c18.pan.stereo_table");
+        ch += 1;
+    }
+    kani::cover!(sel == 4, "BCA");
+}
+
+// ---- resampler tick rate ------------------------------------------------------------------------
+static mut MIXER_TICKS: usize = 0;
+
+fn counting_update_mixer(ay: &mut AymPrecise) {
+    unsafe {
+        MIXER_TICKS += 1;
+    }
+    ay.left = 0.0;
+    ay.right = 0.0;
+}
+
+fn cheap_decimate(_x: &mut [f64]) -> f64 {
+    0.0
+}
+
+fn resampler_body(rate: usize) {
+    let mut ay = mk(rate);
+    let clock = 1_773_400usize;
+    // generator ticks per output sample = f_clk / 8 / rate
+    let x0: f64 = kani::any();
+    kani::assume(x0 >= 0.0 && x0 < 1.0);
+    ay.x = x0;
+    let fi: usize = kani::any();
+    kani::assume(fi < FIR_SIZE / DECIMATE_FACTOR - 1);
+    ay.fir_index = fi;
+    unsafe {
+        MIXER_TICKS = 0;
+    }
+    ay.process();
+    let n = unsafe { MIXER_TICKS };
+    // exact ticks per sample is clock/(8*rate); n must be one of its two integer neighbours
+    let lo = clock / (8 * rate);
+    kani::assert(n >= lo && n <= lo + 1, "c18.resampler.generator_runs_at_clock_over_8");
+    kani::assert(ay.x >= 0.0 && ay.x < 1.0, "c18.resampler.phase_stays_in_unit_interval");
+    kani::cover!(n == lo, "floor");
+    kani::cover!(n == lo + 1, "ceil");
+}
+
+// @harness
+// @prop C18
+// @tier quick
+// @timeout 900
+// @fn AymPrecise::process (resampler loop: x += step, interpolator shift, FIR write positions); AymPrecise::new (step)
+// @sym resampler phase x in [0,1), FIR ring index; sample rate fixed to 8000 Hz, chip clock 1773400 Hz
+// @assert per output sample the tone/noise/envelope generators advance floor or ceil of f_clk/(8*rate) ticks (so tone frequency is f_clk/(16*TP) at this sample rate) and the resampler phase stays in [0,1) (inductive), which keeps the interpolation polynomial and hence every sample bounded; no out-of-bounds FIR access
+// @bound one output sample from an arbitrary phase; sample rate 8000 Hz (rates enumerated: f64 division by a symbolic rate does not bit-blast)
+// @stub AymPrecise::update_mixer -> tick counter with constant output; decimate -> 0.0 (the 192-tap float FIR is outside the claim)
+// @replay solver-only
+#[kani::proof]
+#[kani::unwind(10)]
+#[kani::stub(AymPrecise::update_mixer, counting_update_mixer)]
+#[kani::stub(decimate, cheap_decimate)]
+fn c18_resampler_tick_rate_8000() {
+    resampler_body(8000);
+}
+
+// @harness
+// @prop C18
+// @tier thorough
+// @timeout 900
+// @fn AymPrecise::process (resampler loop: x += step, interpolator shift, FIR write positions); AymPrecise::new (step)
+// @sym resampler phase x in [0,1), FIR ring index; sample rate fixed to 11025 Hz, chip clock 1773400 Hz
+// @assert per output sample the tone/noise/envelope generators advance floor or ceil of f_clk/(8*rate) ticks (so tone frequency is f_clk/(16*TP) at this sample rate) and the resampler phase stays in [0,1) (inductive), which keeps the interpolation polynomial and hence every sample bounded; no out-of-bounds FIR access
+// @bound one output sample from an arbitrary phase; sample rate 11025 Hz (rates enumerated: f64 division by a symbolic rate does not bit-blast)
+// @stub AymPrecise::update_mixer -> tick counter with constant output; decimate -> 0.0 (the 192-tap float FIR is outside the claim)
+// @replay solver-only
+#[kani::proof]
+#[kani::unwind(10)]
+#[kani::stub(AymPrecise::update_mixer, counting_update_mixer)]
+#[kani::stub(decimate, cheap_decimate)]
+fn c18_resampler_tick_rate_11025() {
+    resampler_body(11025);
+}
+
+// @harness
+// @prop C18
+// @tier thorough
+// @timeout 900
+// @fn AymPrecise::process (resampler loop: x += step, interpolator shift, FIR write positions); AymPrecise::new (step)
+// @sym resampler phase x in [0,1), FIR ring index; sample rate fixed to 16000 Hz, chip clock 1773400 Hz
+// @assert per output sample the tone/noise/envelope generators advance floor or ceil of f_clk/(8*rate) ticks (so tone frequency is f_clk/(16*TP) at this sample rate) and the resampler phase stays in [0,1) (inductive), which keeps the interpolation polynomial and hence every sample bounded; no out-of-bounds FIR access
+// @bound one output sample from an arbitrary phase; sample rate 16000 Hz (rates enumerated: f64 division by a symbolic rate does not bit-blast)
+// @stub AymPrecise::update_mixer -> tick counter with constant output; decimate -> 0.0 (the 192-tap float FIR is outside the claim)
+// @replay solver-only
+#[kani::proof]
+#[kani::unwind(10)]
+#[kani::stub(AymPrecise::update_mixer, counting_update_mixer)]
+#[kani::stub(decimate, cheap_decimate)]
+fn c18_resampler_tick_rate_16000() {
+    resampler_body(16000);
+}
+
+// @harness
+// @prop C18
+// @tier quick
+// @timeout 900
+// @fn AymPrecise::process (resampler loop: x += step, interpolator shift, FIR write positions); AymPrecise::new (step)
+// @sym resampler phase x in [0,1), FIR ring index; sample rate fixed to 22050 Hz, chip clock 1773400 Hz
+// @assert per output sample the tone/noise/envelope generators advance floor or ceil of f_clk/(8*rate) ticks (so tone frequency is f_clk/(16*TP) at this sample rate) and the resampler phase stays in [0,1) (inductive), which keeps the interpolation polynomial and hence every sample bounded; no out-of-bounds FIR access
+// @bound one output sample from an arbitrary phase; sample rate 22050 Hz (rates enumerated: f64 division by a symbolic rate does not bit-blast)
+// @stub AymPrecise::update_mixer -> tick counter with constant output; decimate -> 0.0 (the 192-tap float FIR is outside the claim)
+// @replay solver-only
+#[kani::proof]
+#[kani::unwind(10)]
+#[kani::stub(AymPrecise::update_mixer, counting_update_mixer)]
+#[kani::stub(decimate, cheap_decimate)]
+fn c18_resampler_tick_rate_22050() {
+    resampler_body(22050);
+}
+
+// @harness
+// @prop C18
+// @tier thorough
+// @timeout 900
+// @fn AymPrecise::process (resampler loop: x += step, interpolator shift, FIR write positions); AymPrecise::new (step)
+// @sym resampler phase x in [0,1), FIR ring index; sample rate fixed to 32000 Hz, chip clock 1773400 Hz
+// @assert per output sample the tone/noise/envelope generators advance floor or ceil of f_clk/(8*rate) ticks (so tone frequency is f_clk/(16*TP) at this sample rate) and the resampler phase stays in [0,1) (inductive), which keeps the interpolation polynomial and hence every sample bounded; no out-of-bounds FIR access
+// @bound one output sample from an arbitrary phase; sample rate 32000 Hz (rates enumerated: f64 division by a symbolic rate does not bit-blast)
+// @stub AymPrecise::update_mixer -> tick counter with constant output; decimate -> 0.0 (the 192-tap float FIR is outside the claim)
+// @replay solver-only
+#[kani::proof]
+#[kani::unwind(10)]
+#[kani::stub(AymPrecise::update_mixer, counting_update_mixer)]
+#[kani::stub(decimate, cheap_decimate)]
+fn c18_resampler_tick_rate_32000() {
+    resampler_body(32000);
+}
+
+// @harness
+// @prop C18
+// @tier quick
+// @timeout 900
+// @fn AymPrecise::process (resampler loop: x += step, interpolator shift, FIR write positions); AymPrecise::new (step)
+// @sym resampler phase x in [0,1), FIR ring index; sample rate fixed to 44100 Hz, chip clock 1773400 Hz
+// @assert per output sample the tone/noise/envelope generators advance floor or ceil of f_clk/(8*rate) ticks (so tone frequency is f_clk/(16*TP) at this sample rate) and the resampler phase stays in [0,1) (inductive), which keeps the interpolation polynomial and hence every sample bounded; no out-of-bounds FIR access
+// @bound one output sample from an arbitrary phase; sample rate 44100 Hz (rates enumerated: f64 division by a symbolic rate does not bit-blast)
+// @stub AymPrecise::update_mixer -> tick counter with constant output; decimate -> 0.0 (the 192-tap float FIR is outside the claim)
+// @replay solver-only
+#[kani::proof]
+#[kani::unwind(10)]
+#[kani::stub(AymPrecise::update_mixer, counting_update_mixer)]
+#[kani::stub(decimate, cheap_decimate)]
+fn c18_resampler_tick_rate_44100() {
+    resampler_body(44100);
+}
+
+// @harness
+// @prop C18
+// @tier thorough
+// @timeout 900
+// @fn AymPrecise::process (resampler loop: x += step, interpolator shift, FIR write positions); AymPrecise::new (step)
+// @sym resampler phase x in [0,1), FIR ring index; sample rate fixed to 48000 Hz, chip clock 1773400 Hz
+// @assert per output sample the tone/noise/envelope generators advance floor or ceil of f_clk/(8*rate) ticks (so tone frequency is f_clk/(16*TP) at this sample rate) and the resampler phase stays in [0,1) (inductive), which keeps the interpolation polynomial and hence every sample bounded; no out-of-bounds FIR access
+// @bound one output sample from an arbitrary phase; sample rate 48000 Hz (rates enumerated: f64 division by a symbolic rate does not bit-blast)
+// @stub AymPrecise::update_mixer -> tick counter with constant output; decimate -> 0.0 (the 192-tap float FIR is outside the claim)
+// @replay solver-only
+#[kani::proof]
+#[kani::unwind(10)]
+#[kani::stub(AymPrecise::update_mixer, counting_update_mixer)]
+#[kani::stub(decimate, cheap_decimate)]
+fn c18_resampler_tick_rate_48000() {
+    resampler_body(48000);
+}
+
+// @harness
+// @prop C18
+// @tier thorough
+// @timeout 900
+// @fn AymPrecise::process (resampler loop: x += step, interpolator shift, FIR write positions); AymPrecise::new (step)
+// @sym resampler phase x in [0,1), FIR ring index; sample rate fixed to 96000 Hz, chip clock 1773400 Hz
+// @assert per output sample the tone/noise/envelope generators advance floor or ceil of f_clk/(8*rate) ticks (so tone frequency is f_clk/(16*TP) at this sample rate) and the resampler phase stays in [0,1) (inductive), which keeps the interpolation polynomial and hence every sample bounded; no out-of-bounds FIR access
+// @bound one output sample from an arbitrary phase; sample rate 96000 Hz (rates enumerated: f64 division by a symbolic rate does not bit-blast)
+// @stub AymPrecise::update_mixer -> tick counter with constant output; decimate -> 0.0 (the 192-tap float FIR is outside the claim)
+// @replay solver-only
+#[kani::proof]
+#[kani::unwind(10)]
+#[kani::stub(AymPrecise::update_mixer, counting_update_mixer)]
+#[kani::stub(decimate, cheap_decimate)]
+fn c18_resampler_tick_rate_96000() {
+    resampler_body(96000);
+}
+
+// @harness
+// @prop C18
+// @tier thorough
+// @timeout 900
+// @fn AymPrecise::process (resampler loop: x += step, interpolator shift, FIR write positions); AymPrecise::new (step)
+// @sym resampler phase x in [0,1), FIR ring index; sample rate fixed to 192000 Hz, chip clock 1773400 Hz
+// @assert per output sample the tone/noise/envelope generators advance floor or ceil of f_clk/(8*rate) ticks (so tone frequency is f_clk/(16*TP) at this sample rate) and the resampler phase stays in [0,1) (inductive), which keeps the interpolation polynomial and hence every sample bounded; no out-of-bounds FIR access
+// @bound one output sample from an arbitrary phase; sample rate 192000 Hz (rates enumerated: f64 division by a symbolic rate does not bit-blast)
+// @stub AymPrecise::update_mixer -> tick counter with constant output; decimate -> 0.0 (the 192-tap float FIR is outside the claim)
+// @replay solver-only
+#[kani::proof]
+#[kani::unwind(10)]
+#[kani::stub(AymPrecise::update_mixer, counting_update_mixer)]
+#[kani::stub(decimate, cheap_decimate)]
+fn c18_resampler_tick_rate_192000() {
+    resampler_body(192000);
+}
+
+// @harness
+// @prop C18
+// @tier quick
+// @timeout 900
+// @fn AymPrecise::process (resampler loop: x += step, interpolator shift, FIR write positions); AymPrecise::new (step)
+// @sym resampler phase x in [0,1), FIR ring index; sample rate fixed to 384000 Hz, chip clock 1773400 Hz
+// @assert per output sample the tone/noise/envelope generators advance floor or ceil of f_clk/(8*rate) ticks (so tone frequency is f_clk/(16*TP) at this sample rate) and the resampler phase stays in [0,1) (inductive), which keeps the interpolation polynomial and hence every sample bounded; no out-of-bounds FIR access
+// @bound one output sample from an arbitrary phase; sample rate 384000 Hz (rates enumerated: f64 division by a symbolic rate does not bit-blast)
+// @stub AymPrecise::update_mixer -> tick counter with constant output; decimate -> 0.0 (the 192-tap float FIR is outside the claim)
+// @replay solver-only
+#[kani::proof]
+#[kani::unwind(10)]
+#[kani::stub(AymPrecise::update_mixer, counting_update_mixer)]
+#[kani::stub(decimate, cheap_decimate)]
+fn c18_resampler_tick_rate_384000() {
+    resampler_body(384000);
+}
